@@ -7,12 +7,13 @@
  * TO BE PRINTED, in normal form (models/aws_stream.h): the literal text of the format, each %s argument (a
  * registered input as a REF token, a fixed-length internal string or a string literal as text), each %d argument.
  * By C11 the result is the concatenation of exactly these pieces; that is the assumed contract.  The BYTES of the
- * result are not computed: the block holds arbitrary non-NUL bytes of the right length (rendered length of the normal
- * form) followed by NUL, and the model keeps a snapshot of them, so that a later consumer (the hash model's log)
- * can be recognised as "the unmodified result of the k-th asprintf call".  Rendering into bytes would put every
- * byte behind the first argument at a symbolic position, which the SAT back end cannot handle at these sizes (see
- * aws_stream.h); nothing is lost, because aws_sign.c never looks inside a formatted string: it passes it to
- * strlen, to the hash functions, to free, or to its caller.
+ * result are not computed: the block handed back is an abstract STAND-IN for the rendering -- an arbitrary string
+ * of arbitrary length 0..AWS_ABSMAX (non-NUL bytes, then NUL) -- and the model keeps a snapshot of it, so that a
+ * later consumer (the hash model's log) can be recognised as "the whole, unmodified result of the k-th asprintf
+ * call".  Rendering into bytes would put every byte behind the first argument at a symbolic position, which the SAT
+ * back end cannot handle at these sizes (see aws_stream.h), and even copying 300-byte strings around costs minutes
+ * of symbolic execution; nothing is lost, because aws_sign.c never looks inside a formatted string: it passes it
+ * to strlen, to the hash functions, to free, or to its caller, so its behaviour cannot depend on the bytes.
  *
  * NOT variadic (goto-instrument --dfcc appends its write-set parameter to every function and thereby breaks
  * functions with "..." -- measured: every assignment inside the callee is reported "not assignable").  The harness
@@ -22,7 +23,7 @@
  * with 0 (harness/C19/c19.h).  The real util/asprintf.c (two vsnprintf calls + malloc) is therefore NOT part of
  * these proofs.
  *
- * The block has the FIXED capacity AWS_OUTMAX instead of length + 1 bytes: objects of symbolic size send every
+ * The block has the FIXED capacity AWS_ABSMAX + 1 instead of length + 1 bytes: objects of symbolic size send every
  * byte access through CBMC's array theory (measured: > 16 GB); a too large block only over-approximates which
  * accesses are valid, and C19 makes no memory-safety claim.
  * Also: do-nothing warn()/warnx() (util/warnp.c prints to stderr, no effect on any property).
@@ -55,18 +56,21 @@ aws_asprintf9(char ** ret, const char * fmt, const void * a1, const void * a2, c
 	char * str;
 	size_t ai = 0;
 	size_t fi, i, L;
+	struct aws_snap snap;	/* locals, copied to the record in one assignment each: a write to a local is cheap
+				 * for DFCC's write-set check, a write to a global in the assigns clause is not */
+	struct aws_stream st;
 
 	av[0] = a1; av[1] = a2; av[2] = a3; av[3] = a4; av[4] = a5; av[5] = a6; av[6] = a7; av[7] = a8; av[8] = a9;
 #ifdef AWS_FMT_MAYFAIL
 	/* failure-path groups: no recording at all, only "fails, or yields some fresh NUL-terminated string" */
-	if (nondet_int() || (str = malloc(AWS_OUTMAX)) == NULL) {
+	if (nondet_int() || (str = malloc(AWS_ABSMAX + 1)) == NULL) {
 		*ret = NULL;	/* unspecified by the interface; glibc and the BSDs store NULL */
 		return (-1);
 	}
 	(void)av; (void)fmt; (void)r; (void)fi; (void)ai;
 	L = nondet_size_t();
-	__CPROVER_assume(L < AWS_OUTMAX);
-	for (i = 0; i < AWS_OUTMAX; i++)
+	__CPROVER_assume(L <= AWS_ABSMAX);
+	for (i = 0; i < AWS_ABSMAX; i++)
 		__CPROVER_assume(i >= L || str[i] != '\0');
 	str[L] = '\0';
 	*ret = str;
@@ -83,47 +87,49 @@ aws_asprintf9(char ** ret, const char * fmt, const void * a1, const void * a2, c
 	 * (checked by eye; a caller that used the length would need the other mode).  The failure paths (asprintf
 	 * returning -1, malloc returning NULL) are covered separately by the AWS_FMT_MAYFAIL groups.
 	 */
-	str = malloc(AWS_OUTMAX);
+	str = malloc(AWS_ABSMAX + 1);
 	__CPROVER_assume(str != NULL);
 
 	AWS_FMT_BOUND(g_aws_fmt.n < AWS_NREC, "more than AWS_NREC asprintf calls");
 	r = &g_aws_fmt.rec[g_aws_fmt.n];
 	g_aws_fmt.n++;
-	aws_stream_init(&r->s);
+	aws_stream_init(&st);
 	for (fi = 0; fi < AWS_FMTMAX; fi++) {
 		char c = fmt[fi];
 
 		if (c == '\0')
 			break;
 		if (c != '%') {
-			aws_stream_c(&r->s, (uint8_t)c);
+			aws_stream_c(&st, (uint8_t)c);
 			continue;
 		}
 		c = fmt[++fi];
 		if (c == '%') {
-			aws_stream_c(&r->s, '%');
+			aws_stream_c(&st, '%');
 		} else if (c == 's') {
 			if (ai >= 9)
 				AWS_FMT_BAD("more than 9 conversions");
-			aws_stream_cstr(&r->s, (const char *)av[ai++]);
+			aws_stream_cstr(&st, (const char *)av[ai++]);
 		} else if (c == 'd') {
 			if (ai >= 9)
 				AWS_FMT_BAD("more than 9 conversions");
-			aws_stream_int(&r->s, (int)(intptr_t)av[ai++]);
+			aws_stream_int(&st, (int)(intptr_t)av[ai++]);
 		} else {
 			AWS_FMT_BAD("conversion other than %s %d %%");
 		}
 	}
 	AWS_FMT_BOUND(fi < AWS_FMTMAX, "format longer than AWS_FMTMAX");
 
-	/* the result: L arbitrary non-NUL bytes, then NUL; remembered */
-	L = aws_stream_len(&r->s);
-	AWS_FMT_BOUND(L < AWS_OUTMAX, "asprintf result longer than AWS_OUTMAX - 1");
-	for (i = 0; i < AWS_OUTMAX; i++)
+	/* the stand-in for the rendering: L <= AWS_ABSMAX arbitrary non-NUL bytes, then NUL; remembered */
+	L = nondet_size_t();
+	__CPROVER_assume(L <= AWS_ABSMAX);
+	for (i = 0; i < AWS_ABSMAX; i++)
 		__CPROVER_assume(i >= L || str[i] != '\0');
 	str[L] = '\0';
-	for (i = 0; i < AWS_OUTMAX; i++)
-		r->snap[i] = (uint8_t)str[i];
+	for (i = 0; i <= AWS_ABSMAX; i++)
+		snap.b[i] = (uint8_t)str[i];
+	r->snap = snap;
+	r->s = st;
 	r->failed = 0;
 	r->len = L;
 	r->result = str;
